@@ -51,6 +51,33 @@ def uint(rng, bits):
     return rng.randrange(0, 2 ** (8 * k))
 
 
+LEN_WIDTHS = [1, 2, 3, 3, 4, 4, 5, 6, 7, 8, 8, 9, 12, 20, 126]
+
+
+def len_width(rng):
+    """Number of length octets of a (legal, non-minimal) long-form length: X.690 8.1.3.5 allows 1..126."""
+    return rng.choice(LEN_WIDTHS)
+
+
+def berlike(rng):
+    """Octets that themselves look like BER: nested TLVs, the net-snmp Opaque wrappers for
+    float / double / int64 / uint64 (9f 78 04 .., 9f 79 08 .., 9f 7a .., 9f 7b ..), a whole varbind."""
+    r = rng.random()
+    if r < 0.35:
+        t, n = rng.choice([(0x78, 4), (0x79, 8), (0x7A, 8), (0x7B, 8), (0x76, 4), (0x77, 4)])
+        if rng.random() < 0.2:
+            n = rng.choice([0, 1, 3, 5, 9])
+        return bytes([0x9F, t, n]) + bytes(rng.randrange(256) for _ in range(n if rng.random() < 0.9 else max(0, n - 1)))
+    if r < 0.7:
+        tag = rng.choice([0x02, 0x04, 0x05, 0x06, 0x30, 0x40, 0x41, 0x44, 0x46, 0x80, 0x81, 0x82, 0xA2])
+        body = bytes(rng.randrange(256) for _ in range(rng.randint(0, 12)))
+        return bytes([tag, len(body)]) + body
+    if r < 0.85:
+        return bytes.fromhex("300c06082b060102010105000500")
+    inner = bytes(rng.randrange(256) for _ in range(rng.randint(0, 6)))
+    return bytes([0x44, len(inner) + 2, 0x04, len(inner)]) + inner
+
+
 def octets(rng, maxlen=40):
     r = rng.random()
     if r < 0.15:
@@ -108,7 +135,7 @@ def value(rng, kinds=DATA_KINDS, real_binary=True):
     k = rng.choice(kinds)
     opts = {}
     if rng.random() < 0.1:
-        opts["w"] = rng.choice([1, 2, 3])
+        opts["w"] = len_width(rng)
     if k == "int":
         v = ["int", int64(rng)]
     elif k == "int32":
@@ -120,7 +147,7 @@ def value(rng, kinds=DATA_KINDS, real_binary=True):
         v = [k, uint(rng, 64)]
         opts["lz"] = rng.random() < 0.7
     elif k in ("octets", "opaque", "objdesc"):
-        v = [k, octets(rng).hex()]
+        v = [k, (berlike(rng) if rng.random() < (0.3 if k == "opaque" else 0.08) else octets(rng)).hex()]
     elif k == "oid":
         v = ["oid", oid_text(oid(rng, prefix=(rng.choice([0, 1, 2]), rng.randrange(0, 40)), min_extra=0, max_extra=8))]
     elif k == "ipaddr":
@@ -156,12 +183,24 @@ def mib(rng, base=(1, 3, 6, 1), n=None, kinds=SAFE_KINDS, spread=3):
 
 # ---------------------------------------------------------------- sessions / users
 PASSWORDS = [b"maplesyrup", b"authpass12", b"x", b"12345678", b"a" * 64, b"correct horse battery staple", b"k" * 7]
+# pass phrases that *look* like something else (hex / snmpd.conf notation, numbers, quoted or padded text,
+# octets that are not text): a pass phrase is used octet for octet, whatever it looks like
+ODD_PASSWORDS = [b"0xdeadbeefcafe", b"0x0102030405060708", b"0X00", b"0x", b"deadbeefdeadbeef", b"1234567890", b" padded pass ", b'"quoted"', b"pass\x00word", b"\x00" * 8, b"\xff\xfe\xfd\xfc\xfb\xfa\xf9\xf8", b"p\xc3\xa4ssw\xc3\xb6rd", b"tab\tand\nnewline", b"a" * 63, b"a" * 65, b"b" * 1024, b"MD5", b"None", b"localized:abcdef"]
+
+
+def password(rng):
+    return rng.choice(ODD_PASSWORDS) if rng.random() < 0.3 else rng.choice(PASSWORDS)
 ENGINE_IDS = ["80001f8880aabbccdd", "8000000001020304", "80001f88" + "11" * 28, "0102030405", "80" + "ff" * 11]
 
 
 def engine_id(rng):
-    if rng.random() < 0.6:
+    r = rng.random()
+    if r < 0.6:
         return rng.choice(ENGINE_IDS)
+    if r < 0.66:
+        # RFC 3411 says 5..32 octets; nothing in the protocol encoding or the library enforces it
+        n = rng.choice([1, 4, 33, 64, 127, 128, 129, 200, 255, 256, 300])
+        return bytes(rng.randrange(256) for _ in range(n)).hex()
     n = rng.randint(5, 32)
     return bytes(rng.randrange(256) for _ in range(n)).hex()
 
@@ -170,7 +209,7 @@ def key_spec(rng, alg, ktype, engine_hex, kind):
     """Key material for a user spec. `alg` is the *auth* algorithm (privacy keys
     are derived with the auth digest). Master/localized keys are computed with the
     reference so that agent and client share the same secret."""
-    pw = rng.choice(PASSWORDS)
+    pw = password(rng)
     if ktype == "password":
         return pw.hex()
     ku = usm.password_to_key(alg, pw)
@@ -201,6 +240,12 @@ def user(rng, level, engine_hex, name=None, ktypes=None):
         palg = {"des": 1, "aes": 2}[p]
         kt2 = rng.choice(ktypes or ["password", "master", "localized"])
         u["priv"] = {"alg": palg, "type": kt2, "key": key_spec(rng, alg, kt2, engine_hex, "priv")}
+        if rng.random() < 0.15:
+            # the very same octets given as both keys (possibly under two different key types):
+            # a digest-sized string is a legal pass phrase, master key and localized key alike
+            k = bytes(rng.randrange(256) for _ in range(16 if alg == 1 else 20)).hex()
+            u["auth"]["key"] = k
+            u["priv"]["key"] = k
     return u
 
 
